@@ -80,6 +80,18 @@ def table_scenarios(repo):
     r = call("__iter__")
     seq = list(p.it.iterate(r[1])) if r[0] == "value" else []
     add("Table.__iter__", "visible columns in order", len(seq) == 2 and is_col(("value", seq[0]), "a", "U1") and is_col(("value", seq[1]), "b", "U2"), r)
+    if "__dir__" in T.methods:
+        r = call("__dir__")
+        names = list(p.it.iterate(r[1])) if r[0] == "value" else []
+        add("Table.__dir__", "offers the visible column names (not the hidden ones)", "a" in names and "b" in names and "h" not in names and "a0" not in names, r)
+    sc = cache.cls.methods.get("selected_cols")
+    if sc is not None:
+        try:
+            r = ("value", p.call(sc.bind(cache), []))
+        except PyRaise as e:
+            r = ("raise", e.name)
+        seq = list(p.it.iterate(r[1])) if r[0] == "value" else []
+        add("Cache.selected_cols", "the visible columns' Col objects, in the order of the name maps", len(seq) == 2 and seq[0] is cols["U1"] and seq[1] is cols["U2"], r)
     return out
 
 
